@@ -80,6 +80,9 @@ pub trait Translator {
         /*@recovered*/ r matches Ok(f) ==> exists|w: Recovery| #[trigger] recovered(self.tr_view(), memory.tm_view(), *options, function_address, w) && merged_from(f.control_flow_graph, w.graph),
         /*@lifted*/ r matches Ok(f) ==> lifted_ok(self.tr_view(), memory.tm_view(), *options, function_address, f),
 //@ enter
+    // keep the per-block instruction-index quantifiers of unit C15's block_wf out of this function's queries (a failing
+    // proof must fail fast); the one place that needs the definition reveals it locally
+    hide(Block::block_wf);
     let ghost u = choose|u: Set<u64>| #[trigger] confined(self.tr_view(), memory.tm_view(), *options, function_address, u);
     let ghost tv = self.tr_view();
     let ghost mv = memory.tm_view();
@@ -122,12 +125,17 @@ pub trait Translator {
 //@ before 0 `let block_address = translation_queue.pop_front().unwrap();`
     let ghost q_pre = translation_queue@;
     let ghost rs0 = translation_results@;
-//@ before 0 `if translation_results.contains_key(&block_address) {`
+//@ after 0 `let block_address = translation_queue.pop_front().unwrap();`
     let ghost q1 = translation_queue@;
     proof {
         lemma_pending_pop(rs0, q_pre, opt, function_address);
         assert(block_address == q_pre[0] && u.contains(q_pre[0]));
         assert forall|i: int| 0 <= i < q1.len() implies u.contains(#[trigger] q1[i]) by { assert(q1[i] == q_pre[i + 1]); }
+    }
+//@ before 0 `control_flow_graph.set_entry(block_index)?;`
+    proof {
+        // the fresh empty block is well formed (the only use of block_wf's definition in this function)
+        assert(control_flow_graph.graph.vertices@[block_index].block_wf()) by { reveal(Block::block_wf); }
     }
 //@ before 0 `continue;`
     proof { lemma_pending_skip(rs0, q1, block_address, opt, function_address); }
@@ -158,10 +166,11 @@ pub trait Translator {
         forall|j: int| 0 <= j < vf_it2.index@ ==> translation_queue@.contains((#[trigger] ss[j]).0),
 //@ before 0 `if !translation_queue.contains(&successor.0) {`
     let ghost q2 = translation_queue@;
-    proof { assert(*successor == ss[vf_it2.index@ as int]); }
-//@ after 0 `translation_queue.push_back(successor.0);`
     proof {
+        assert(*successor == ss[vf_it2.index@ as int]);
+        // whichever end of the queue the successor is pushed to
         lemma_q_push(q2, successor.0);
+        lemma_q_push_front(q2, successor.0);
     }
 //@ after 0 `translation_results.insert(block_address, block_translation_result);`
     proof {
@@ -206,7 +215,7 @@ pub trait Translator {
     proof {
         assert(rs.contains_pair(*vf_it3.seq()[idx as int].0, *vf_it3.seq()[idx as int].1));
         assert(rs.contains_key(key) && rs[key] == b);
-        assert(result_ok(b, key, capb, capi));
+        assert(stored_ok(b, key, capb, capi));
         lemma_cap_step(idx, rs.dom().len(), u.len(), capb);
         lemma_cap_step(idx, rs.dom().len(), u.len(), capi);
         assert(b.instructions@.take(0) =~= Seq::<(u64, ControlFlowGraph)>::empty());
@@ -214,7 +223,7 @@ pub trait Translator {
     }
 //@ loop 4
     invariant
-        rs.contains_key(key), rs[key] == b, *block_translation_result == b, result_ok(b, key, capb, capi),
+        rs.contains_key(key), rs[key] == b, *block_translation_result == b, stored_ok(b, key, capb, capi),
         (idx + 1) * capb == idx * capb + capb, (idx + 1) * capb <= usize::MAX,
         (idx + 1) * capi == idx * capi + capi, (idx + 1) * capi <= usize::MAX,
         vf_it4.seq().len() == b.instructions@.len(),
@@ -250,16 +259,18 @@ pub trait Translator {
             lemma_chain_has(g0, b, ii0, j, j - 1);
         }
     }
-//@ after 0 `instruction_indices.insert(address, (entry, exit));`
+//@ after 0 `let (entry, exit) = control_flow_graph.insert(instruction_graph)?;`
     proof {
+        // the address gets the indices (copy of the entry, copy of the exit) of the instruction graph just inserted;
+        // stated for the map the NEXT statement has to produce
         let (m, minv) = choose|m: Map<usize, usize>, minv: Map<usize, usize>| #[trigger] control_flow_graph.inserted_with(g0, *instruction_graph, m, minv)
             && (entry, exit) == (m[instruction_graph.entry->0], m[instruction_graph.exit->0]);
+        let ii_new = ii0.insert(address, (entry, exit));
         lemma_layout_insert(g0, control_flow_graph, *instruction_graph, m, minv, rs, ii0, lay0, address);
         lay = layout_insert(lay0, address, *instruction_graph, m, g0.next_index);
-        assert(instruction_indices@ == ii0.insert(address, (entry, exit)));
-        assert(ii_sub(ii0, instruction_indices@));
-        lemma_chain_frame(g0, control_flow_graph, b, ii0, instruction_indices@, j);
-        lemma_blocks_frame(g0, control_flow_graph, rs, ii0, instruction_indices@, bi0);
+        assert(ii_sub(ii0, ii_new));
+        lemma_chain_frame(g0, control_flow_graph, b, ii0, ii_new, j);
+        lemma_blocks_frame(g0, control_flow_graph, rs, ii0, ii_new, bi0);
     }
 //@ before 0 `if let Some(previous_exit) = previous_exit {`
     let ghost g1 = control_flow_graph;
@@ -285,7 +296,7 @@ pub trait Translator {
         lemma_chain_frame(g1, control_flow_graph, b, ii1, ii1, j);
         lemma_blocks_frame(g1, control_flow_graph, rs, ii1, ii1, bi0);
     }
-//@ before 0 `block_exit = exit;`
+//@ after 0 `else { block_entry = entry; }`
     proof {
         lemma_chain_step(control_flow_graph, b, ii1, j);
     }
@@ -323,7 +334,7 @@ pub trait Translator {
         control_flow_graph.entry == g3.entry,
         me_done(control_flow_graph, opt, bi, vf_mi as int),
     decreases vf_me@.len() - vf_mi,
-//@ before 0 `let (_, edge_head) = block_indices[&manual_edge.head_address()];`
+//@ after 0 `vf_mi += 1;`
     let ghost gm = control_flow_graph;
     let ghost mi = (vf_mi - 1) as int;
     proof {
@@ -367,7 +378,7 @@ pub trait Translator {
         me_done(control_flow_graph, opt, bi, opt.manual_edges@.len() as int),
         forall|p: int| 0 <= p < vf_it6.index@ ==> succ_done(control_flow_graph, *(#[trigger] vf_it6.seq()[p]).1, bi, *vf_it6.seq()[p].0, vf_it6.seq()[p].1.successors@.len() as int),
         vf_it6.index@ == vf_it6.seq().len() ==> all_succ_done(control_flow_graph, rs, bi),
-//@ before 0 `let (_, block_exit) = block_indices[&address];`
+//@ after 0 `let address = *vf_a;`
     let ghost i6 = vf_it6.index@ as int;
     let ghost b6 = *block_translation_result;
     proof {
@@ -390,7 +401,7 @@ pub trait Translator {
         forall|p: int| 0 <= p < i6 ==> succ_done(control_flow_graph, *(#[trigger] vf_it6.seq()[p]).1, bi, *vf_it6.seq()[p].0, vf_it6.seq()[p].1.successors@.len() as int),
         succ_done(control_flow_graph, b6, bi, address, vf_si as int),
     decreases vf_ss@.len() - vf_si,
-//@ before 0 `let (block_entry, _) = block_indices[successor_address];`
+//@ after 0 `vf_si += 1;`
     let ghost gs = control_flow_graph;
     let ghost si = (vf_si - 1) as int;
     proof {
@@ -398,7 +409,13 @@ pub trait Translator {
         assert(rs.contains_key(rs[address].successors@[si].0));
         assert(bi.contains_key(*successor_address));
     }
-//@ before 0 `match successor_condition {`
+//@ before 3 `continue;`
+    proof {
+        // the guard of the existing edge block_exit -> block_entry was widened: the edge is still there
+        lemma_guard_extends(gs, control_flow_graph, block_exit, block_entry, control_flow_graph.graph.edges@[(block_exit, block_entry)]);
+        lemma_succ_step(gs, control_flow_graph, g3, opt, bi, vf_it6.seq(), i6, b6, address, si);
+    }
+//@ before 1 `match successor_condition {`
     proof {
         // the edge call of either arm cannot fail: both blocks exist and the edge is new
         assert(edge_call_ok(control_flow_graph, block_exit, block_entry));
@@ -412,7 +429,7 @@ pub trait Translator {
     proof {
         lemma_all_succ(vf_it6.seq(), i6 + 1, control_flow_graph, rs, bi);
     }
-//@ before 0 `control_flow_graph.set_entry(block_indices[&function_address].0)?;`
+//@ before 0 `control_flow_graph.set_entry(block_indices`
     let ghost g7 = control_flow_graph;
     proof {
         assert(bi.contains_key(function_address));
